@@ -1346,7 +1346,21 @@ func runPOPGUARD(c *Ctx) {
 					n++
 					pos := P.InstrPos(ins)
 					what := "pop of the last path entry in " + ir.FuncName(fn)
-					if ir.FlowFact(ins, exhausted, func(ssa.Instruction) bool { return false }) {
+					held := ir.FlowFact(ins, exhausted, func(ssa.Instruction) bool { return false })
+					if !held && fn != entry && len(fn.Blocks) > 0 && len(fn.Blocks[0].Instrs) > 0 {
+						// the pop loop extracted into a helper of the region: the test made before the call counts for the
+						// first pass — the fact holds at the helper's entry if it holds at every call of the helper
+						first := fn.Blocks[0].Instrs[0]
+						inside := ir.FlowFactGen(ins, exhausted, func(i ssa.Instruction) bool { return i == first }, func(ssa.Instruction) bool { return false })
+						atCalls := len(P.Callers[fn]) > 0
+						for _, cs := range P.Callers[fn] {
+							if !ir.FlowFact(cs, exhausted, func(ssa.Instruction) bool { return false }) {
+								atCalls = false
+							}
+						}
+						held = inside && atCalls
+					}
+					if held {
 						c.OK(pos, what, "every path to it has just found the entry's node without a key left in the direction of travel", false)
 					} else {
 						c.Violation(fn, pos, "path entry dropped although its node may still have keys to visit",
